@@ -1,4 +1,6 @@
 import RV.C17.LemmasSound
+import RV.C17.LemmasFresh
+import RV.C17.LemmasTrie
 /-
   C17 — property theorems (statements first, as `def … : Prop`, then the proofs).
 
@@ -62,6 +64,32 @@ def Statement_split_spec : Prop :=
       ((xmlns.isPrefixOf uri = true ∧ n = xmlns) ∨
         (n ≠ [] ∧ ∃ c r, l = c :: r ∧ (inCats starts c = true ∨ c = 95)))
 
+/-- `get_longest_namespace` on a trie built by `insert_trie` calls (in any order, repeats allowed)
+    returns the longest inserted namespace that is a prefix of the IRI, and `None` iff there is none.
+    (`LongestSpec known v r`: `r ∈ known`, `r` prefixes `v`, every `w ∈ known` prefixing `v` prefixes `r`.) -/
+def Statement_longest_is_longest : Prop :=
+  ∀ (known : List Str) (v : Str), LongestSpec known v (getLongest v (known.foldl insertForest []))
+
+/-- `insert_trie` keeps the trie well formed (below a node every value strictly extends its key;
+    siblings are never prefixes of one another) and adds exactly the inserted value. -/
+def Statement_trie_inv_insert : Prop :=
+  ∀ (f : Forest) (v : Str), FInv f →
+    FInv (insertForest f v) ∧ ∀ w, w ∈ vals (insertForest f v) ↔ w = v ∨ w ∈ vals f
+
+/-- After any history: the loop of `compute_qname` that looks for an unused `ns<k>` stops within
+    `len(bindings)+1` rounds, and the prefix it picks is unbound or bound to the empty namespace
+    (the code tests truthiness: `if not self.store.namespace(prefix)`).  Likewise the
+    `<prefix><k>` loop of `bind`.  (That the namespace then really has the generated prefix is part
+    of `qname_bound_and_expands`.) -/
+def Statement_generated_prefix_fresh : Prop :=
+  ∀ (ops : List Op),
+    (∃ p, pickNs (St.init.run ops).store ((St.init.run ops).store.ns.length + 1) 1 = some p) ∧
+    (∀ fuel num p, pickNs (St.init.run ops).store fuel num = some p →
+        (St.init.run ops).store.namespace p = none ∨ (St.init.run ops).store.namespace p = some []) ∧
+    (∀ base n, (pickNumbered (St.init.run ops).store base n ((St.init.run ops).store.ns.length + 1) 1).isLoop = false) ∧
+    (∀ base n fuel num p, pickNumbered (St.init.run ops).store base n fuel num = .fresh p →
+        (St.init.run ops).store.namespace p = none ∨ (St.init.run ops).store.namespace p = some [])
+
 /-! ### Proofs -/
 
 theorem bind_bijective : Statement_bind_bijective :=
@@ -86,6 +114,16 @@ theorem expand_inverse : Statement_expand_inverse := by
 theorem split_spec : Statement_split_spec :=
   fun _ _ _ _ h => ⟨splitUri_append h, splitUri_shape h⟩
 
+theorem longest_is_longest : Statement_longest_is_longest := getLongest_build
+
+theorem trie_inv_insert : Statement_trie_inv_insert := fun _ v h => insertForest_spec h v
+
+theorem generated_prefix_fresh : Statement_generated_prefix_fresh := by
+  intro ops
+  exact ⟨pickNs_terminates _, fun f k p h => falsy_cases (pickNs_falsy _ f k p h),
+    fun base n => pickNumbered_terminates _ base n,
+    fun base n f k p h => falsy_cases (pickNumbered_fresh _ base n f k p h)⟩
+
 /-! ### Non-vacuity and regression witnesses (concrete histories, by evaluation) -/
 
 def sA : Str := [97]                                   -- "a"
@@ -108,6 +146,13 @@ example : ((St.init.run exHist).step (.cq true iriX false)).2 = .qn sB nsEa [120
 example : ((St.init.run exHist).step (.cq false (nsE ++ [98, 35, 99]) true)).2 = .qn [110, 115, 49] (nsE ++ [98, 35]) [99] ∧
     ((St.init.run exHist).step (.cq false (nsE ++ [98, 35, 99]) true)).1.store.namespace [110, 115, 49] = some (nsE ++ [98, 35]) := by
   decide
+
+/-- the trie after binding nested namespaces in an unfavourable order, and its lookups -/
+def exKnown : List Str := [nsEa, nsE ++ [98], nsE, nsEa ++ [98, 47]]
+example : getLongest iriX (exKnown.foldl insertForest []) = some nsEa := by decide
+example : getLongest (nsEa ++ [98, 47, 120]) (exKnown.foldl insertForest []) = some (nsEa ++ [98, 47]) := by decide
+example : getLongest [117, 114, 110, 58] (exKnown.foldl insertForest []) = none := by decide
+example : pickNs (St.init.run exHist).store 3 1 = some [110, 115, 49] := by decide
 
 /-- The non-override branch of `Memory.bind` as it was before the `fix:` commit: with `p → n1`,
     `q → n2`, `bind(p, n2, override=False)` left a listing that is not a bijection. -/
